@@ -335,7 +335,7 @@ def type_range(t, dt=None):
 
 
 class IState(object):
-    __slots__ = ('env', 'ptr', 'reads', 'events', 'facts', 'visits', 'origin', 'stop')
+    __slots__ = ('env', 'ptr', 'reads', 'events', 'facts', 'visits', 'origin', 'stop', 'callvals')
 
     def __init__(self):
         self.env = {}      # key -> (lo, hi)
@@ -346,6 +346,7 @@ class IState(object):
         self.visits = {}   # loop head node id -> times this path passed it
         self.origin = {}   # key -> index in reads of the input byte the variable holds unchanged
         self.stop = None   # index in reads of the last input byte known to be >= 128 (stop bit seen)
+        self.callvals = {}  # call node uid -> interval returned by an inlined static helper (current node only)
 
     def copy(self):
         s = IState()
@@ -357,6 +358,7 @@ class IState(object):
         s.visits = dict(self.visits)
         s.origin = dict(self.origin)
         s.stop = self.stop
+        s.callvals = dict(self.callvals)
         return s
 
 
@@ -373,6 +375,8 @@ class IntervalInterp(object):
         self.call_model = call_model
         self.exits = []    # (return interval, state, node)
         self.steps = 0
+        self.alias = {}    # pointer parameter decl of an inlined helper -> key of the cell it points to
+        self.inlined = set()
 
     # ---- keys
     def key_of(self, e):
@@ -388,17 +392,32 @@ class IntervalInterp(object):
         if e.k == 'idx':
             b = strip(e.a[0])
             if b.k == 'var' and b.op not in self.input_params and b.op not in self.out_params and \
-                    const_value(e.a[1]) is not None and b.dk == 'VarDecl':
-                return ('m', b.decl, '%s[%d]' % (b.op, const_value(e.a[1])))
+                    b.dk == 'VarDecl' and b.decl not in self.alias:
+                sub = const_value(e.a[1])
+                cur = getattr(self, '_cur_st', None)
+                if sub is None and cur is not None and b.decl not in cur.ptr:
+                    # a subscript that is a single value in the current state (unrolled loop counter)
+                    iv = self.ev(e.a[1], cur)
+                    if iv is not None and iv[0] == iv[1]:
+                        sub = iv[0]
+                if sub is not None:
+                    return ('m', b.decl, '%s[%d]' % (b.op, sub))
         if e.k == 'un' and e.op == '*':
             b = strip(e.a[0])
-            if b.k == 'var' and b.op in self.out_params:
+            if b.k == 'var' and b.decl in self.alias:
+                return self.alias[b.decl]
+            if b.k == 'var' and b.op in self.out_params and b.dk == 'ParmVarDecl' and self.is_own_param(b):
                 return ('d', b.decl, '*' + b.op)
         if e.k == 'idx':
             b = strip(e.a[0])
-            if b.k == 'var' and b.op in self.out_params and const_value(e.a[1]) == 0:
+            if b.k == 'var' and b.decl in self.alias and const_value(e.a[1]) == 0:
+                return self.alias[b.decl]
+            if b.k == 'var' and b.op in self.out_params and const_value(e.a[1]) == 0 and self.is_own_param(b):
                 return ('d', b.decl, '*' + b.op)
         return None
+
+    def is_own_param(self, v):
+        return any(p.decl == v.decl for p in self.fn.params)
 
     def fit(self, iv, e, st, what='result'):
         """Check interval against the C type of node e; returns the interval
@@ -546,6 +565,8 @@ class IntervalInterp(object):
         if k == 'sizeof' and e.val is not None:
             return (e.val, e.val)
         if k == 'call':
+            if e.uid in st.callvals:
+                return st.callvals[e.uid]
             return type_range(e.t, e.dt)
         return type_range(e.t, e.dt)
 
@@ -761,6 +782,8 @@ class IntervalInterp(object):
                 v = self.ev(n.a[0], st)
                 self.assign(n.a[0], None if v is None else (v[0] + d, v[1] + d), st, n.line, n)
             elif n.k == 'call':
+                if n.uid in st.callvals:
+                    continue      # an inlined static helper: its effects are already in the state
                 if self.call_model is not None:
                     self.call_model(self, n, st)
 
@@ -786,10 +809,68 @@ class IntervalInterp(object):
 
     # ---- driver
     def run(self, init_env=None):
-        g = build_cfg(self.fn)
         st0 = IState()
         for k, v in (init_env or {}).items():
             st0.env[k] = v
+        self.exits = self.explore(self.fn, st0, 0)
+        return self.exits
+
+    INLINE_DEPTH = 3
+
+    def inline_target(self, fn, call):
+        """A call to a static function of the same unit that has a body: interpreted in place."""
+        from ..ir import callee_name
+        n = callee_name(call)
+        if n is None or self.prog is None:
+            return None
+        t = self.prog.resolve_direct(fn, n)
+        if t is None or not getattr(t, 'static', False) or t.body is None or t.unit != fn.unit or t is fn:
+            return None
+        return t
+
+    def pending_call(self, fn, node, st, depth):
+        if node.e is None or depth >= self.INLINE_DEPTH:
+            return None
+        for n in self.post(node.e):
+            if n.k == 'call' and n.uid not in st.callvals:
+                t = self.inline_target(fn, n)
+                if t is not None:
+                    return n, t
+        return None
+
+    def bind(self, callee, call, st):
+        args = call.a[1:]
+        if len(args) != len(callee.params):
+            raise AnalysisBroken('%s: call with %d arguments to %s/%d' % (self.fn.name, len(args), callee.name,
+                                                                         len(callee.params)))
+        for p, a in zip(callee.params, args):
+            ua = self.unwrap(a)
+            if (p.t or '').rstrip().endswith('*'):
+                tgt = None
+                if ua is not None and ua.k == 'var':
+                    if ua.decl in self.alias:
+                        tgt = self.alias[ua.decl]
+                    elif ua.op in self.out_params and self.is_own_param(ua):
+                        tgt = ('d', ua.decl, '*' + ua.op)
+                    elif ua.op in self.input_params or ua.decl in st.ptr:
+                        st.ptr[p.decl] = st.ptr.get(ua.decl, (ua.op, 0))
+                        continue
+                elif ua is not None and ua.k == 'un' and ua.op == '&':
+                    tgt = self.key_of(ua.a[0])
+                if tgt is not None:
+                    self.alias[p.decl] = tgt
+                # other pointers (the context, strings): not modelled
+            else:
+                v = self.ev(a, st)
+                key = ('v', p.decl, p.op)
+                if v is not None:
+                    st.env[key] = v
+                else:
+                    st.env.pop(key, None)
+
+    def explore(self, fn, st0, depth):
+        g = build_cfg(fn)
+        exits = []
         work = [(g.entry, st0)]
         while work:
             self.steps += 1
@@ -798,6 +879,17 @@ class IntervalInterp(object):
                     self.fn.name, self.MAX_STEPS))
             node, st = work.pop()
             k = node.k
+            self._cur_st = st
+            if k in ('stmt', 'decl', 'branch', 'ret') and not (k == 'decl' and node.static):
+                pc = self.pending_call(fn, node, st, depth)
+                if pc is not None:
+                    call, callee = pc
+                    self.inlined.add(callee.name)
+                    self.bind(callee, call, st)
+                    for rv, st2, nd in self.explore(callee, st, depth + 1):
+                        st2.callvals[call.uid] = rv if rv is not None else type_range(call.t, call.dt)
+                        work.append((node, st2))
+                    continue
             if k in ('entry', 'join'):
                 if node.loop is not None and getattr(self, 'max_loop_visits', None):
                     # a loop whose trip count the intervals cannot bound: follow it max_loop_visits times per path
@@ -809,9 +901,10 @@ class IntervalInterp(object):
                 for m, lab in node.succ:
                     work.append((m, st))
             elif k == 'exit':
-                self.exits.append((None, st, node))
+                exits.append((None, st, node))
             elif k == 'stmt':
                 self.exec_expr(node.e, st)
+                st.callvals = {}
                 for m, lab in node.succ:
                     work.append((m, st))
             elif k == 'decl':
@@ -823,6 +916,7 @@ class IntervalInterp(object):
                     else:
                         self.exec_expr(node.e, st)
                         self.assign(v, self.ev(node.e, st), st, node.line, node.e)
+                st.callvals = {}
                 for m, lab in node.succ:
                     work.append((m, st))
             elif k == 'branch':
@@ -833,6 +927,7 @@ class IntervalInterp(object):
                         continue
                     s2 = st.copy() if t is None else st
                     self.refine(node.e, bool(lab), s2)
+                    s2.callvals = {}
                     work.append((m, s2))
             elif k == 'ret':
                 if node.e is not None:
@@ -840,7 +935,8 @@ class IntervalInterp(object):
                     v = self.ev(node.e, st)
                 else:
                     v = None
-                self.exits.append((v, st, node))
+                st.callvals = {}
+                exits.append((v, st, node))
             elif k == 'switch':
                 raise AnalysisBroken('%s: switch not supported by the interval interpreter' % self.fn.name)
-        return self.exits
+        return exits
